@@ -4,11 +4,12 @@ from vlib import gocheck
 
 def main():
     groups = [dict(pkg='compiler/internal/hir/analysis', rel='internal/hir/analysis', harnesses=['HarnessC07PathsOverlap', 'HarnessC07Loans'], max_paths=200000)]
-    groups += [dict(pkg='compiler/internal/verifrt/fe', rel='internal/verifrt/fe', harnesses=['HarnessC07Shapes'], max_paths=100000)]
+    groups += [dict(pkg='compiler/internal/verifrt/fe', rel='internal/verifrt/fe', harnesses=['HarnessC07Shapes'], max_paths=100000),
+               dict(pkg='compiler/internal/verifrt/fe', rel='internal/verifrt/fe', harnesses=['HarnessC07Escapes'], max_paths=100000)]
     rc = gocheck.run('C07', 'other', groups, gocheck.GOSYM_ASSUME + [
         'reference model: a loan (owner reference, place, mutable) is live from its creation (borrow or copy of a reference) until its owner is released; read conflicts with live overlapping mutable loans, write and mutable borrow with any live overlapping loan, shared borrow with live overlapping mutable loans; overlap = prefix relation on place paths',
         'PARTIAL: the loan table and the place-overlap relation only; last-use computation (computeLastUse, releaseExpiredRefs), scope exit, checkReturnLifetime over real bodies and the write-through semantics of references in generated code (covered for a few templates by C01 family ref) are NOT decided here',
-    ], 'FRONT END + BORROW CHECKER (HarnessC07Shapes): a reference (shared or mutable) to a local whose last use sits in one of ten statement shapes (plain, then, else, trailing else of 2- and 3-arm else-if chains, middle arm, loop body, match arms, nested if) x a conflicting access (write, read of a mutably borrowed place, shared / mutable re-borrow) placed before the shape, inside the arm before the last use, or after the shape: the real lexer .. type checker .. HIR generation .. HIR analyses run on the program inside the symbolic interpreter; the conflict must be rejected while the reference is still used later and accepted once its last use has passed. KERNELS: (a) pathsOverlap/pathsEqual on all pairs of 5 place paths: overlap <=> prefix relation, symmetric, reflexive; (b) the borrow checker\'s loan table (addBorrow, bindRefFromIdent, releaseBinding, checkAccess, findBorrow, removeBorrowEntry) driven through every 4-event history borrow / copy-or-borrow / release / access over 4 places and 2 references (2880 histories, events are symbolic choices): an error is reported exactly when the reference aliasing-xor-mutation model has a conflicting live loan.')
+    ], 'FRONT END + BORROW CHECKER (HarnessC07Shapes): a reference (shared or mutable) to a local whose last use sits in one of ten statement shapes (plain, then, else, trailing else of 2- and 3-arm else-if chains, middle arm, loop body, match arms, nested if) x a conflicting access (write, read of a mutably borrowed place, shared / mutable re-borrow) placed before the shape, inside the arm before the last use, or after the shape: the real lexer .. type checker .. HIR generation .. HIR analyses run on the program inside the symbolic interpreter; the conflict must be rejected while the reference is still used later and accepted once its last use has passed. ESCAPES (HarnessC07Escapes): a function with a reference result returns a reference to {an initialised local, a local declared without an initialiser, a field of either kind of struct local, the second item of a multi-item let} x {return &x, let r: &T = &x; return r} x {end of body, inside an if, inside a while}: rejected; returning a received reference (parameter, field behind a reference parameter) is accepted. KERNELS: (a) pathsOverlap/pathsEqual on all pairs of 5 place paths: overlap <=> prefix relation, symmetric, reflexive; (b) the borrow checker\'s loan table (addBorrow, bindRefFromIdent, releaseBinding, checkAccess, findBorrow, removeBorrowEntry) driven through every 4-event history borrow / copy-or-borrow / release / access over 4 places and 2 references (2880 histories, events are symbolic choices): an error is reported exactly when the reference aliasing-xor-mutation model has a conflicting live loan.')
     sys.exit(rc)
 
 if __name__ == '__main__':
